@@ -10,8 +10,10 @@ META = {
     "text": "Coq theorems over an executable model of lexing/, jsonx/ and strtoken: for every byte string the lexer "
             "yields a finite token list without panicking (structural), the fuel-driven recursive-descent parser "
             "(value, typed series with SkipErrStmt recovery, ToJSON, Unmarshal, command-line splitting) never runs out "
-            "of fuel 2*|tokens|+8 and never panics, every entry point returns a value or at least one error, and input "
-            "cut inside a string, a block comment or an open bracket is rejected. The model is tied to the code on every "
+            "of fuel 2*|tokens|+8 and never panics, every entry point returns a value or at least one error, one Decoder "
+            "driven by any sequence of More / Decode / DecodeSeries calls returns at every call (and is unusable after a "
+            "parse error), and input cut inside a string, a block comment or an open bracket is rejected (end to end, read "
+            "off the tokens of the whole input; strtoken.Parse included). The model is tied to the code on every "
             "run by a translator (keyword set, token codes, operator runes, exponent signs, error cap, the loop condition "
             "of SkipErrStmt) and by differential runs of the real code in a watched child process, evaluated inside Coq.",
     "note": "Trusted: Coq kernel + vm_compute; translator gen/jsonx.go; harness + shim; bufio.ReadRune decoding and "
@@ -25,54 +27,7 @@ PROOFS = ["theories/Props/C08.vo"]
 STATEMENT_FILES = ["theories/Props/C08.v", "theories/Jsonx/ConstsGen.v"]
 
 
-def scan_state(data):
-    """Independent of the model: is the end of `data` inside a string, a block
-    comment, or an unclosed bracket?  Used only on cuts of documents that are
-    valid as a whole."""
-    i, n, depth = 0, len(data), 0
-    while i < n:
-        c = data[i:i + 1]
-        if c == b'"':
-            i += 1
-            while True:
-                if i >= n:
-                    return "string"
-                if data[i:i + 1] == b"\\":
-                    i += 2
-                    if i > n:
-                        return "string"
-                    continue
-                if data[i:i + 1] == b"\n":
-                    return "string"
-                if data[i:i + 1] == b'"':
-                    i += 1
-                    break
-                i += 1
-            continue
-        if c == b"`":
-            j = data.find(b"`", i + 1)
-            if j < 0:
-                return "string"
-            i = j + 1
-            continue
-        if data[i:i + 2] == b"/*":
-            j = data.find(b"*/", i + 2)
-            if j < 0:
-                return "comment"
-            i = j + 2
-            continue
-        if data[i:i + 2] == b"//":
-            j = data.find(b"\n", i)
-            if j < 0:
-                return None if depth == 0 else "bracket"
-            i = j
-            continue
-        if c in (b"{", b"["):
-            depth += 1
-        elif c in (b"}", b"]"):
-            depth -= 1
-        i += 1
-    return "bracket" if depth > 0 else None
+scan_state = J.scan_state
 
 
 def impl_oracle(c):
@@ -86,6 +41,8 @@ def impl_oracle(c):
     op = c["op"]
     if op == "file":
         return J.file_oracle(c)
+    if op in ("script", "rstream", "rseries", "reuse", "targets", "lexfn", "raw"):
+        return J.usage_oracle(c)
     if op == "rawpos" and o.get("note"):
         return "position", o["note"]
     if op in ("tseries", "stream") and o.get("note"):
@@ -129,9 +86,14 @@ def run(ck):
 
     cases = J.run_harness(ck, "c08", n)
     shrunk = set()
-    for c in cases:
+    for k, c in enumerate(cases):
+        if c["op"] == "hold":
+            ck.coverage["results_held_across_later_cases"] = ck.coverage.get("results_held_across_later_cases", 0) + (c["obs"].get("n") or 0)
+            if not J.crash_kind(c["obs"]):
+                J.hold_oracle(ck, cases, k)
+                continue
         data = bytes.fromhex(c["in"])
-        ck.count(c["stream"] + ":" + c["op"], key=(c["op"], c["in"], tuple(c.get("known") or [])),
+        ck.count(c["stream"] + ":" + c["op"], key=(c["op"], c["in"], tuple(c.get("known") or []), c.get("script"), c.get("rmode"), c.get("cut")),
                  trivial=len(data) == 0)
         bad = impl_oracle(c)
         if bad:
@@ -178,6 +140,19 @@ def run(ck):
              "multi-line strings and comments, non-ASCII and invalid UTF-8, against the model's positions, and every "
              "error position of ToJSON / DecodeSeries must be the start of a token. "
              "Each input is run through DecodeSeries / Unmarshal / ToJSON / the token chain / strtoken.Parse. "
+             "Usage patterns (round 3): ONE Decoder driven by a script of More / Decode / DecodeSeries calls (Decode "
+             "without More, More repeated, calls after a call that failed, a series after a header value, a series "
+             "twice), with intended values for valid documents and the proved model Jsonx/Script.v for every script; "
+             "Decoders fed by io.Readers of every legal shape (one byte per Read, small chunks, data together with "
+             "EOF, empty reads, 4096-k chunks) and by readers that fail after k bytes (DecodeSeries must return "
+             "exactly the reader's error); two to five documents through ToJSON / Unmarshal / DecodeSeries / "
+             "strtoken.Parse one after the other and from 8 goroutines (results not sharing memory, inputs not "
+             "written to); the exported lexers no entry point reaches (comment lexer, word lexer, '-quoted literals, "
+             "a lexer without LexFunc) - tokens must spell the input; TypeMakers returning a non-pointer, a nil "
+             "pointer, a map by value, a filled value, *chan; every token kind and a 4-byte rune across byte 4096 "
+             "of the input (bufio's buffer), tokens longer than it, nesting 1000 deep; every string up to length 4 "
+             "over a \" \\ space LF x 4 and command lines ending inside a quote or an escape; the raw tokens of "
+             "every raw case must spell the input. "
              "A case is trivial if its input is empty; distinct = distinct (operation, input bytes).",
         assumptions=["the io.Reader given to the lexer does not fail (inputs are byte slices / strings)",
                      "strconv.ParseFloat terminates and returns a value or an error",
